@@ -35,7 +35,9 @@ def single_shot_bodies(facts):
     return out
 
 
-def check_single_shot(rep, facts, a, setups, rule='R14.1'):
+def check_single_shot(rep, facts, a, setups, rule='R14.1', integrity_only=False):
+    """integrity_only (C06): extra Err returns and extra calls that receive no mutable borrow cannot release or alter
+    plaintext — they change *which* error is returned, which is C14's business, not C06's"""
     fn = a.body.key
     name = fn.rsplit('::', 1)[-1]
     n = a.body.arg_count
@@ -69,6 +71,10 @@ def check_single_shot(rep, facts, a, setups, rule='R14.1'):
             if method is None:
                 method = (bi, t, c)
                 continue
+        if integrity_only:
+            from ..prov import carries_mut
+            if not any(carries_mut(x) or 'closure' in x for x in t['arg_tys']):
+                continue
         others.append(c['path'])
     rep.check(not others, rule, fn, 'no-other-calls', '%s' % others, 'no call besides setup, the context method and `?` plumbing', where(a))
     if method is None:
@@ -98,6 +104,8 @@ def check_single_shot(rep, facts, a, setups, rule='R14.1'):
     for s, t, cls in ret_classes(a, facts):
         if isinstance(cls, tuple) and cls[0] == 'err':
             ident = t[0] == 'from_residual' and t[1][0] == 'residual' and t[1][1][0] == 'call' and t[1][1][3] in (sbi, mbi)
+            if integrity_only and not ident:
+                continue
             rep.check(ident, rule, fn, 'error-identity:%s' % ('setup' if ident and t[1][1][3] == sbi else 'method'), pp(t)[:200],
                       'errors of setup / the context method propagated by `?` unchanged', where(a, s))
         elif isinstance(cls, tuple) and cls[0] == 'tail':
